@@ -73,6 +73,9 @@ func implies(a, b string) string {
 	if a == "true" {
 		return b
 	}
+	if a == "false" {
+		return "true"
+	}
 	if b == "true" {
 		return "true"
 	}
